@@ -283,6 +283,35 @@ def make_value(spec, ent, ws, loc, attr):
         return not bool(cur)
     if k == "wsname":
         return ws.name
+    if k == "inplace":
+        # the common idiom  v = obj.attr; v[...] = x; obj.attr = v  : the very object the getter hands out, edited in place
+        v = getattr(ent, attr)
+        if isinstance(v, dict):
+            v["edited%d" % spec["seed"]] = spec["seed"]
+            return v
+        if not isinstance(v, np.ndarray) or v.dtype.names or v.size == 0:
+            raise LookupError("the getter does not hand out a plain array")
+        if v.dtype == bool:
+            v.flat[0] = not v.flat[0]
+        elif attr == "cells":
+            row = v[0].copy()
+            v[0] = row[::-1] if row[0] != row[-1] else (row + 1) % max(int(v.max()) + 1, 2)
+        elif np.issubdtype(v.dtype, np.integer):
+            v.flat[0] = 1 + (int(v.flat[0]) % 2)
+        else:
+            v.flat[-1] = float(v.flat[-1]) + 1.0 + spec["seed"] % 3 if attr != "z_cell_delimiters" else float(v.flat[-1]) - 1.0
+        return v
+    if k == "falsy":
+        cur = getattr(ent, attr)
+        if isinstance(cur, str):
+            return ""
+        if isinstance(cur, bool):
+            return False
+        if isinstance(cur, (int, np.integer)):
+            return 0
+        if isinstance(cur, (float, np.floating)):
+            return 0.0
+        raise LookupError("no falsy value for this attribute")
     if k in ("str", "float", "int", "list", "dict"):
         from copy import deepcopy
 
